@@ -42,6 +42,12 @@ type GraphSpec struct {
 	Quote bool `json:"quote,omitempty"`
 	// Repeat writes the first reference of every parameter twice before the others ("%a%-%a%:%b%").
 	Repeat bool `json:"repeat,omitempty"`
+	// Dangling makes every service that references something also reference undefined services whose names sort before,
+	// between and after the defined ones (meant for runs with --ignore-missing-services).
+	Dangling bool `json:"dangling,omitempty"`
+	// TodoTagged: like TodoSinks, but for services that reference nothing and do list tags: a placeholder's other
+	// attributes are dropped, so it carries no tag and is decorated by nothing.
+	TodoTagged bool `json:"todo_tagged,omitempty"`
 }
 
 func (g GraphSpec) svc(i int) string {
@@ -170,6 +176,13 @@ func (g GraphSpec) Config() cfg.Config {
 		}
 		if i < len(g.Scopes) && g.Scopes[i] != "" {
 			s.Scope = cfg.P(g.Scopes[i])
+		}
+		if g.Dangling && len(s.Args)+len(s.Fields)+len(s.Calls) > 0 {
+			s.Args = append([]cfg.Val{cfg.Str("@a-gone")}, append(s.Args, cfg.Str("@"+g.svc(0)+"-gone"), cfg.Str("@zz-gone"))...)
+		}
+		if g.TodoTagged && len(s.Args)+len(s.Fields)+len(s.Calls) == 0 && len(s.Tags) > 0 {
+			yes := true
+			s = cfg.Service{Name: s.Name, Todo: &yes, Scope: s.Scope, Tags: s.Tags, Ctor: s.Ctor}
 		}
 		if g.TodoSinks && len(s.Args)+len(s.Fields)+len(s.Calls)+len(s.Tags) == 0 {
 			yes := true
